@@ -425,6 +425,27 @@ def search(ctx):
             for _k in range(4):
                 off = rng.choice([1, -1]) * rng.choice([1.2e-9, 2e-9, 5e-9, 1e-8, 3e-8, 1e-7, 1e-6]) * geo.ext
                 one('arch', cps, geo, path, 'near-extreme-level', (rng.choice([geo.box[0] - 20.0, geo.box[2] + 20.0]), ye + off))
+    # a segment that starts and ends at the same node (a one-cubic loop): alone, two of them sharing the node, or hanging on a corner of a triangle
+    for _ in range(ctx.n(12, 300)):
+        a = (float(rng.randint(-100, 100)), float(rng.randint(-100, 100))) if rng.random() < 0.5 else (rng.uniform(-100, 100), rng.uniform(-100, 100))
+        def loop(ang):
+            w, h = rng.uniform(40, 200), rng.uniform(40, 200); c, s_ = math.cos(ang), math.sin(ang)
+            def R(x, y): return (a[0] + c * x - s_ * y, a[1] + s_ * x + c * y)
+            return [a, R(w, h * rng.uniform(0.3, 1)), R(-w, h), a]
+        kind = rng.choice(['single', 'two-loops', 'on-triangle'])
+        ang = rng.uniform(0, 2 * math.pi)
+        if kind == 'single': cps = [loop(ang)]
+        elif kind == 'two-loops': cps = [loop(ang), loop(ang + math.pi)]
+        else:
+            b = (a[0] + rng.uniform(60, 200), a[1] - rng.uniform(40, 150)); c_ = (a[0] - rng.uniform(60, 200), a[1] - rng.uniform(40, 150))
+            cps = [loop(math.pi / 2 - math.pi / 2 + rng.uniform(-0.3, 0.3)), [a, b], [b, c_], [c_, a]]
+        geo = Geo(cps); path = make_path(cps)
+        for cp in cps:
+            if len(cp) != 4: continue
+            for _k in range(3):      # points inside the loop: between the node and the far side of the loop
+                far = ref.bern(cp, 0.5); fr = rng.uniform(0.35, 0.85)
+                one('loop-segment/' + kind, cps, geo, path, 'inside-loop', (a[0] + (far[0] - a[0]) * fr + rng.uniform(-2, 2), a[1] + (far[1] - a[1]) * fr + rng.uniform(-2, 2)))
+        for qfam, q in gen_queries(rng, geo, 3): one('loop-segment/' + kind, cps, geo, path, qfam, q)
     # a cubic with a HORIZONTAL INFLECTION (y-controls a, b, a, b: y'(1/2) = y''(1/2) = 0; the curve crosses the level (a+b)/2 with a horizontal
     # tangent), the query level with the inflection
     for _ in range(ctx.n(15, 300)):
